@@ -272,6 +272,18 @@ func runC10(c *Ctx) {
 		}
 	}()
 	p := c.P
+	// a panic under a schedule: the writer samples the length/delay distributions while the reader
+	// re-seeds them on a peer-sent seed packet — Reset and Sample must each be one critical section
+	// (C12's lock rule, imported as R9)
+	if reset, sample := p.Func("common/probdist:(*WeightedDist).Reset"), p.Func("common/probdist:(*WeightedDist).Sample"); reset != nil && sample != nil {
+		reach := map[*ssa.Function]bool{}
+		for fn := range p.Reachable(reset) {
+			if p.inModule(fn) && relPkg(fn.Pkg.Pkg.Path()) == "common/probdist" {
+				reach[fn] = true
+			}
+		}
+		c12Locks(c, p, "R9", reset, sample, reach)
+	}
 	cio := newConnIO(p)
 	net, roots := networkFuncs(p)
 	o := c.Obl("R0", "entry-points", "anti-vacuity: the transports' factories and conn types are discovered through base.ClientFactory/ServerFactory and net.Conn")
@@ -313,6 +325,7 @@ func runC10(c *Ctx) {
 	n := boundsRule(c, net, "R4", "R5", nil)
 	// the one assertion excluded from the bounds rule for needing a heap invariant: decided structurally
 	meekRdBufInvariant(c, p, "R5")
+	meekResponseRules(c, p, "R3")
 	o = c.Obl("R4", "count", "anti-vacuity: the bounds engine discharged at least the obligations confirmed on the reference tree")
 	if n < 100 {
 		o.Undecide("only %d bounds obligations discharged", n)
